@@ -124,6 +124,14 @@ def check(prog, rep, tier):
             if iv is None:
                 rep.undecided(rule, key, found='hold time not symbolic')
                 return
+            if resets and timer == 'hold':
+                cur_h = r.field('fsm', 'hold_time')
+                wrong = [t for t in resets if t[2] and cur_h is not None and t[2][0] != cur_h.desc()]
+                if wrong:
+                    rep.bad(rule, key, file=FSM_FILE, line=common.row_line(r), func=common.row_func(r),
+                            found='hold timer restarted with %s instead of the negotiated hold time' % wrong[0][2][0],
+                            expected='hold_timer.reset(self.hold_time)', key=key, path=r.describe())
+                    return
             if iv[1] >= 1 and not resets:
                 rep.bad(rule, key, file=FSM_FILE, line=common.row_line(r), func=common.row_func(r),
                         found='with H > 0 the %s timer is not re-armed' % timer,
